@@ -3,6 +3,7 @@ package props
 import (
 	"fmt"
 	"go/token"
+	"go/types"
 	"strings"
 
 	"golang.org/x/tools/go/ssa"
@@ -275,49 +276,8 @@ func runC04(c *core.Ctx, o Options) {
 		}
 	}
 	c.Check(len(snd) == 1 && snd[0] == "ServeIncoming" && okRcv && len(rcv) >= 1, "F4", "DefaultHandler.incoming", "ServeIncoming is the only producer; Run (and its drain helper) the only consumer", token.NoPos, fmt.Sprintf("senders %v receivers %v", snd, rcv), fmt.Sprintf("senders %v, receivers %v", snd, rcv))
-	// callers of Reader(), ServeIncoming, Conn.Write: one closure per serve function
-	sitesOf := map[string]map[string][]string{}
-	for _, m := range []struct{ what, method string }{{"Conn.Reader", "Reader"}, {"ServeIncoming", "ServeIncoming"}, {"Conn.Write", "Write"}} {
-		sites := map[string][]string{}
-		sitesOf[m.method] = sites
-		for _, fn := range fns {
-			an.AllInstrs(fn, func(in ssa.Instruction) {
-				cc := an.CallOf(in)
-				if cc == nil {
-					return
-				}
-				hit := false
-				if cal := an.StaticCallee(cc); cal != nil && an.FuncIs(cal, "simplefix-go", "Conn."+m.method) {
-					hit = true
-				}
-				if cc.IsInvoke() && cc.Method.Name() == m.method && m.method == "ServeIncoming" {
-					hit = true
-				}
-				if hit {
-					for _, o := range goroutineOwners(fn, fns, 0) {
-						sites[o[0]] = append(sites[o[0]], o[1])
-					}
-				}
-			})
-		}
-		ok := len(sites) == 2 && len(sites["serve"]) == 1 && len(sites["Serve"]) == 1
-		c.Check(ok, "F4", m.what, "called from exactly one goroutine closure of each serve function", token.NoPos, fmt.Sprint(sites), fmt.Sprintf("call sites %v; expected one closure in Acceptor.serve and one in Initiator.Serve", sites))
-	}
-	// the inbound pump and the outbound pump are different goroutines: the hand-off to the handler (which can wait for the handler
-	// loop) must never keep the outgoing queue from being drained, and a slow socket write must never keep input from being handed on
-	for _, root := range []string{"serve", "Serve"} {
-		shared := ""
-		for _, w := range sitesOf["Write"][root] {
-			for _, r := range sitesOf["ServeIncoming"][root] {
-				if w == r {
-					shared = w
-				}
-			}
-		}
-		c.Check(shared == "" && len(sitesOf["Write"][root]) > 0 && len(sitesOf["ServeIncoming"][root]) > 0, "F4", root, "inbound hand-off and outbound write run in different goroutines", token.NoPos,
-			fmt.Sprintf("writer %v, forwarder %v", sitesOf["Write"][root], sitesOf["ServeIncoming"][root]),
-			fmt.Sprintf("goroutine %s both writes to the socket and hands input to the handler: while it waits in one, the other direction stalls (a handler answering from its loop then deadlocks with a full queue), and further input is never delivered", shared))
-	}
+	sitesOf := checkSinglePumps(c, "F4", fns)
+	_ = sitesOf
 	// writer closures: Write(msg) with the dequeued message; forwarders: ServeIncoming(msg) with the received one (F7)
 	for _, sf := range []string{"Acceptor.serve", "Initiator.Serve"} {
 		fn := c.Func("", sf)
@@ -601,7 +561,9 @@ func runC04(c *core.Ctx, o Options) {
 	if s := newSess(c); s != nil {
 		checkSendChainNoSpawn(c, s, "F5")
 	}
-	c.RuleMin = map[string]int{"F1": 3, "F2": 3, "F3": 1, "F4": 6, "F5": 19, "F6": 12, "F7": 2}
+	checkNoMessageDropped(c, "F7")
+	c.Explanation += " F4 counts goroutines through helpers shared by both serve functions (a literal inside such a helper runs for each caller; an unexported method or method value handed to errgroup.Go is a goroutine of its caller). F7 also covers every receive from a byte-message channel in the root package: on each path on which the receive succeeded the value is passed on (to a call, a send, a store or the result) before the function returns or loops — a message that is only measured and dropped is lost."
+	c.RuleMin = map[string]int{"F1": 3, "F2": 3, "F3": 1, "F4": 6, "F5": 19, "F6": 12, "F7": 7}
 	c.MinObl = 40
 }
 
@@ -626,16 +588,88 @@ func blockReachable(from, to *ssa.BasicBlock) bool {
 // goroutineOwners names the goroutine bodies that execute fn, as (top-level function, body) pairs: a function literal is its own
 // body under its enclosing top-level function; an unexported plain function of the package belongs to the bodies that call it
 // (or, where it is spawned with go, is itself a body under the spawning function); anything else is its own root.
+// checkSinglePumps (C04.F4, C05.K11): per connection there is one goroutine that writes the socket (Conn.Write), one that takes
+// input from the reader (Conn.Reader) and one that hands it to the handler (ServeIncoming) — exactly one goroutine body of each
+// serve function each — and the writer is not the forwarder. Two writers reorder the stream; a writer that also forwards stalls
+// one direction while it waits in the other.
+func checkSinglePumps(c *core.Ctx, rule string, fns []*ssa.Function) map[string]map[string][]string {
+	// callers of Reader(), ServeIncoming, Conn.Write: one closure per serve function
+	sitesOf := map[string]map[string][]string{}
+	for _, m := range []struct{ what, method string }{{"Conn.Reader", "Reader"}, {"ServeIncoming", "ServeIncoming"}, {"Conn.Write", "Write"}} {
+		sites := map[string][]string{}
+		sitesOf[m.method] = sites
+		for _, fn := range fns {
+			an.AllInstrs(fn, func(in ssa.Instruction) {
+				cc := an.CallOf(in)
+				if cc == nil {
+					return
+				}
+				hit := false
+				if cal := an.StaticCallee(cc); cal != nil && an.FuncIs(cal, "simplefix-go", "Conn."+m.method) {
+					hit = true
+				}
+				if cc.IsInvoke() && cc.Method.Name() == m.method && m.method == "ServeIncoming" {
+					hit = true
+				}
+				if hit {
+					for _, o := range goroutineOwners(fn, fns, 0) {
+						sites[o[0]] = append(sites[o[0]], o[1])
+					}
+				}
+			})
+		}
+		ok := len(sites) == 2 && len(sites["serve"]) == 1 && len(sites["Serve"]) == 1
+		c.Check(ok, rule, m.what, "called from exactly one goroutine closure of each serve function", token.NoPos, fmt.Sprint(sites), fmt.Sprintf("call sites %v; expected one closure in Acceptor.serve and one in Initiator.Serve", sites))
+	}
+	// the inbound pump and the outbound pump are different goroutines: the hand-off to the handler (which can wait for the handler
+	// loop) must never keep the outgoing queue from being drained, and a slow socket write must never keep input from being handed on
+	for _, root := range []string{"serve", "Serve"} {
+		shared := ""
+		for _, w := range sitesOf["Write"][root] {
+			for _, r := range sitesOf["ServeIncoming"][root] {
+				if w == r {
+					shared = w
+				}
+			}
+		}
+		c.Check(shared == "" && len(sitesOf["Write"][root]) > 0 && len(sitesOf["ServeIncoming"][root]) > 0, rule, root, "inbound hand-off and outbound write run in different goroutines", token.NoPos,
+			fmt.Sprintf("writer %v, forwarder %v", sitesOf["Write"][root], sitesOf["ServeIncoming"][root]),
+			fmt.Sprintf("goroutine %s both writes to the socket and hands input to the handler: while it waits in one, the other direction stalls (a handler answering from its loop then deadlocks with a full queue), and further input is never delivered", shared))
+	}
+	return sitesOf
+}
+
 func goroutineOwners(fn *ssa.Function, fns []*ssa.Function, depth int) [][2]string {
 	if fn.Parent() != nil {
 		root := fn
 		for root.Parent() != nil {
 			root = root.Parent()
 		}
+		// a literal inside a helper that the serve functions share (an unexported function every use of which is a plain
+		// call) runs for each of the helper's callers
+		if depth < 4 {
+			ros := goroutineOwners(root, fns, depth+1)
+			if !(len(ros) == 1 && ros[0][0] == an.NameOf(root) && ros[0][1] == an.NameOf(root)) {
+				var out [][2]string
+				seen := map[[2]string]bool{}
+				for _, ro := range ros {
+					o := [2]string{ro[0], an.NameOf(fn)}
+					// spawned by the helper itself: the literal is its own goroutine; otherwise it runs in the caller's
+					if !isSpawned(fn) {
+						o[1] = ro[1]
+					}
+					if !seen[o] {
+						seen[o] = true
+						out = append(out, o)
+					}
+				}
+				return out
+			}
+		}
 		return [][2]string{{an.NameOf(root), an.NameOf(fn)}}
 	}
 	self := [][2]string{{an.NameOf(fn), an.NameOf(fn)}}
-	if depth > 4 || fn.Object() == nil || fn.Object().Exported() {
+	if depth > 4 || fn.Object() == nil || fn.Object().Exported() || an.IsKnown(fn) {
 		return self
 	}
 	var out [][2]string
@@ -715,4 +749,247 @@ func serveBodies(fn *ssa.Function, fns []*ssa.Function) []*ssa.Function {
 		}
 	}
 	return out
+}
+
+// isSpawned: the function literal is started as a goroutine where it is created (go func(){…}() or errgroup's Go(func…)).
+func isSpawned(fn *ssa.Function) bool {
+	p := fn.Parent()
+	if p == nil {
+		return false
+	}
+	spawned := false
+	an.AllInstrs(p, func(in ssa.Instruction) {
+		if g, ok := in.(*ssa.Go); ok && an.StaticCallee(&g.Call) == fn {
+			spawned = true
+		}
+		if call, ok := in.(*ssa.Call); ok && an.CalleeIs(&call.Call, "errgroup", "Group.Go") && len(call.Call.Args) == 2 && an.ClosureFn(call.Call.Args[1]) == fn {
+			spawned = true
+		}
+	})
+	return spawned
+}
+
+// checkNoMessageDropped (C04.F7, C14.Q6, C05.K11): a message taken from a byte-message channel of the transport (the connection's
+// reader, the handler's incoming and outgoing queues — any `chan []byte` received from in the root package) is gone from the
+// queue; on every path on which the receive succeeded the value must be handed on (passed to a call, sent, stored or returned)
+// before the function returns or goes round its loop. A path that only measures it and lets it go loses a message.
+func checkNoMessageDropped(c *core.Ctx, rule string) {
+	pkg := c.SSAPkg("")
+	if !c.Anchor("root package", pkg != nil, "simplefixgo", token.NoPos) {
+		return
+	}
+	isMsgChan := func(t types.Type) bool {
+		ch, ok := t.Underlying().(*types.Chan)
+		if !ok {
+			return false
+		}
+		sl, ok := ch.Elem().Underlying().(*types.Slice)
+		if !ok {
+			return false
+		}
+		b, ok := sl.Elem().Underlying().(*types.Basic)
+		return ok && b.Kind() == types.Uint8
+	}
+	n := 0
+	for _, fn := range pkgFuncs(pkg) {
+		type recv struct {
+			at  ssa.Instruction
+			val ssa.Value // the received message
+			ok  ssa.Value // the comma-ok result (nil if not taken)
+		}
+		var recvs []recv
+		an.AllInstrs(fn, func(in ssa.Instruction) {
+			switch x := in.(type) {
+			case *ssa.Select:
+				k := 0
+				for _, st := range x.States {
+					if st.Dir != types.RecvOnly {
+						continue
+					}
+					idx := 2 + k
+					k++
+					if !isMsgChan(st.Chan.Type()) {
+						continue
+					}
+					r := recv{at: x}
+					for _, ref := range *x.Referrers() {
+						if ex, isEx := ref.(*ssa.Extract); isEx {
+							if ex.Index == idx {
+								r.val = ex
+							}
+							if ex.Index == 1 {
+								r.ok = ex
+							}
+						}
+					}
+					recvs = append(recvs, r)
+				}
+			case *ssa.UnOp:
+				if x.Op == token.ARROW && isMsgChan(x.X.Type()) {
+					r := recv{at: x, val: x}
+					if x.CommaOk {
+						r.val, r.ok = nil, nil
+						for _, ref := range *x.Referrers() {
+							if ex, isEx := ref.(*ssa.Extract); isEx {
+								if ex.Index == 0 {
+									r.val = ex
+								} else {
+									r.ok = ex
+								}
+							}
+						}
+					}
+					recvs = append(recvs, r)
+				}
+			}
+		})
+		if len(recvs) == 0 {
+			continue
+		}
+		paths, over := an.EnumPaths(fn, 4096)
+		for _, r := range recvs {
+			n++
+			ob := c.Ob(rule, an.NameOf(fn), "a message received from "+an.Render(recvChan(r.at))+" is handed on", r.at.Pos())
+			if over {
+				ob.Unknown("too many paths")
+				continue
+			}
+			if r.val == nil {
+				// the value is never looked at: a drain (only legitimate where nothing can be queued; tabled by name)
+				if an.NameOf(fn) == "processRemainingErrors" {
+					ob.Ok("drain")
+				} else {
+					ob.Fail("the received message is discarded")
+				}
+				continue
+			}
+			bad := ""
+			for _, p := range paths {
+				if !p.Passes(r.at) || p.Panic {
+					continue
+				}
+				// the receive succeeded on this path (for a select: this case was chosen and, if tested, ok is true)
+				chosen := true
+				for _, a := range p.Atoms {
+					if r.ok != nil && a.Val == r.ok && !a.Taken {
+						chosen = false
+					}
+					if r.ok != nil {
+						if u, isU := a.Val.(*ssa.UnOp); isU && u.Op == token.NOT && u.X == r.ok && a.Taken {
+							chosen = false
+						}
+					}
+					if sel, isSel := r.at.(*ssa.Select); isSel {
+						// index test: extract #0 == k
+						if bo, isB := a.Val.(*ssa.BinOp); isB && bo.Op == token.EQL {
+							if ex, isEx := bo.X.(*ssa.Extract); isEx && ex.Tuple == ssa.Value(sel) && ex.Index == 0 {
+								if k, isK := an.ConstInt(bo.Y); isK {
+									mine := selectIndexOf(sel, r.val)
+									if (int(k) == mine) != a.Taken && int(k) == mine {
+										chosen = false
+									}
+									if int(k) != mine && a.Taken {
+										chosen = false
+									}
+								}
+							}
+						}
+					}
+				}
+				if !chosen {
+					continue
+				}
+				// forward flow of the value along the path
+				taint := map[ssa.Value]bool{r.val: true}
+				consumed := false
+				after := false
+				for _, in := range p.InstrSeq() {
+					if in == r.at {
+						after = true
+						continue
+					}
+					if !after {
+						continue
+					}
+					uses := false
+					for _, op := range in.Operands(nil) {
+						if op != nil && *op != nil && taint[*op] {
+							uses = true
+						}
+					}
+					if !uses {
+						continue
+					}
+					switch x := in.(type) {
+					case *ssa.Call:
+						if b, isB := x.Call.Value.(*ssa.Builtin); isB {
+							if b.Name() == "append" || b.Name() == "copy" {
+								taint[x] = true
+								if b.Name() == "copy" {
+									taint[x.Call.Args[0]] = true
+								}
+							}
+							continue
+						}
+						consumed = true
+					case *ssa.Send, *ssa.Store, *ssa.Return, *ssa.MapUpdate, *ssa.Go, *ssa.Defer:
+						consumed = true
+					case ssa.Value:
+						taint[x] = true
+					}
+				}
+				if !consumed {
+					end := "returns"
+					if p.Loop {
+						end = "goes round its loop"
+					}
+					bad = "under [" + p.CondString() + "] the function " + end + " without having handed the received message on"
+					break
+				}
+			}
+			if bad != "" {
+				ob.Fail("%s: the message is lost", bad)
+			} else {
+				ob.Ok("handed on (or the receive did not succeed) on every path")
+			}
+		}
+	}
+	c.Check(n >= 4, rule, "", "message receives found", token.NoPos, fmt.Sprint(n), fmt.Sprintf("only %d receives from byte-message channels found in the root package; 5 were confirmed by reading", n))
+}
+
+func recvChan(in ssa.Instruction) ssa.Value {
+	switch x := in.(type) {
+	case *ssa.UnOp:
+		return x.X
+	case *ssa.Select:
+		for _, st := range x.States {
+			if st.Dir == types.RecvOnly {
+				if ch, ok := st.Chan.Type().Underlying().(*types.Chan); ok {
+					if _, isSl := ch.Elem().Underlying().(*types.Slice); isSl {
+						return st.Chan
+					}
+				}
+			}
+		}
+	}
+	return nil
+}
+
+// selectIndexOf: the index of the select state whose received value is v (an extract of the select).
+func selectIndexOf(sel *ssa.Select, v ssa.Value) int {
+	ex, ok := v.(*ssa.Extract)
+	if !ok {
+		return -1
+	}
+	k := 0
+	for i, st := range sel.States {
+		if st.Dir != types.RecvOnly {
+			continue
+		}
+		if 2+k == ex.Index {
+			return i
+		}
+		k++
+	}
+	return -1
 }
